@@ -93,6 +93,24 @@ def gen(tier, rng):
         calls += [sess.E("LIST"), "R5000", sess.E(direct), "R5000"]
         cases.append(Case(sess.session(calls), sig="\n".join(prog) + "\n#enter: " + "; ".join(entry) + "\n#then: " + direct, tag="faulty",
                           meta=("faulty", faults, nums)))
+    # a correct program stops inside itself; a direct DELETE then removes a line other lines refer to (or the WEND of an open
+    # WHILE), so the program now has a compile-time error; whatever is typed next to resume it -- CONT, RETURN, NEXT -- must
+    # not run any of its code
+    shapes = [
+        (['10 PRINT "#10";:GOSUB 100', '20 PRINT "#20";:END', '30 GOTO 200', '100 PRINT "#100";:STOP', '110 PRINT "#110";:RETURN', '200 REM t'], "DELETE 200"),
+        (['10 FOR I=1 TO 3:PRINT "#10";', '20 STOP', '30 PRINT "#30";:NEXT I', '40 END', '50 GOSUB 300', '300 RETURN'], "DELETE 300"),
+        (['10 I=0', '20 WHILE I<3', '30 I=I+1:PRINT "#30";:STOP:PRINT "#31";', '40 WEND', '50 PRINT "#50"'], "DELETE 40"),
+        (['10 PRINT "#10";:GOSUB 100', '20 PRINT "#20";:END', '30 ON Q GOTO 10,400', '100 FOR J=1 TO 2:PRINT "#100";:STOP', '110 NEXT J:RETURN', '400 REM t'], "DELETE 400-"),
+        (['10 PRINT "#10";:STOP', '20 PRINT "#20";:RESTORE 90', '30 END', '90 DATA 1'], "DELETE 90"),
+    ]
+    for prog, cut in shapes:
+        for resume in (["CONT"], ["RETURN"], ["NEXT"], ["NEXT I"], ["CONT", "RETURN"], ["GOTO 20"], ["RUN 20"]):
+            calls = ["R5000"] + [sess.E(l) for l in prog] + [sess.E("RUN"), "R5000", sess.E(cut), "R5000", sess.E('PRINT "@cut"'), "R5000"]
+            for x in resume:
+                calls += [sess.E(x), "R5000"]
+            calls += [sess.E("LIST"), "R5000", sess.E('PRINT "@ok"'), "R5000"]
+            cases.append(Case(sess.session(calls), sig="\n".join(prog) + "\n#RUN, then: " + cut + "; then: " + "; ".join(resume), tag="became-faulty",
+                              meta=("became-faulty", [], [])))
     return cases
 
 
@@ -101,6 +119,14 @@ def monitor(case, r):
         return None
     if "PANIC" in r.split("|") or "HANG" in r.split("|") or r in ("PANIC", "HANG", "CRASH"):
         return "crash: %s answers ...%s" % (case.sig, sess.decode_events(r)[-200:])
+    if case.meta[0] == "became-faulty":
+        text = transcript.printed_text(transcript.split_events(framework.default_canon(None, r)))
+        if "@cut" not in text or "@ok" not in text:
+            return "direct: direct statements must keep working after the edit\n%s\n%s" % (case.sig, sess.decode_events(r)[-300:])
+        after = text.split("@cut", 1)[1]
+        if "#" in after:
+            return "executed: after the edit left the program with a compile-time error it still ran: %r\n%s" % (after[:120], case.sig)
+        return None
     _, faults, nums = case.meta
     ev = transcript.after_first_stop(transcript.split_events(framework.default_canon(None, r)))
     text = transcript.printed_text(ev)
@@ -147,4 +173,4 @@ def monitor(case, r):
 
 
 def nontrivial(case, r):
-    return r is not None and any(ord(ch) > 127 for ch in case.sig) or (r is not None and "ON Z" in case.sig)
+    return (r is not None and case.meta[0] == "became-faulty") or r is not None and any(ord(ch) > 127 for ch in case.sig) or (r is not None and "ON Z" in case.sig)
